@@ -55,6 +55,11 @@ def weird_inv(rng):
         elif r < 0.18:
             d = rng.choice([N, L(I(1)), S('text'), I(0)])
         inv.classes[(nme + '.yml',)] = d
+    # files whose name is special to discovery, directly below the classes / nodes directory
+    if rng.random() < 0.15:
+        inv.classes[(rng.choice(['init.yml', 'init.yaml', '.yml', '..yml']),)] = G.doc([], [], ('m', [(S('i'), I(1))]))
+    if rng.random() < 0.1:
+        inv.nodes[(rng.choice(['init.yml', 'init.yaml', '_n.yml']),)] = G.doc(names[:1], [], ('m', [(S('q'), I(2))]))
     inv.universe.update(names + ['no.such', 'x', '1'])     # every name an include entry can spell, incl. the integer entry of L(I(1))
     inv.nodes[('n.yml',)] = G.doc(names[:2] + (['${sel}'] if rng.random() < 0.3 else []), [], ('m', [(S('q'), weird_value(rng, 1))]))
     return inv
